@@ -64,11 +64,32 @@ def _cond_option_index(body, bb):
     return some and two
 
 
+def _guarded_subs_only(body, o):
+    """every subtraction the value went through is guarded (dominated by minuend >= subtrahend)"""
+    found = False
+    for bb in sorted(body.live_blocks()):
+        for s in body.stmts(bb):
+            if 'assign' in s and s['rv']['k'] == 'bin' and s['rv']['op'].startswith('Sub'):
+                lo = origin(body, s['rv']['l'])
+                if lo.atoms & o.atoms or True:
+                    # is this statement part of o's derivation? (its result local feeds o): conservative: consider subs whose operands share atoms with o
+                    if (lo.atoms | origin(body, s['rv']['r']).atoms) <= o.atoms | {a for a in o.atoms}:
+                        found = True
+                        if not sub_is_guarded(body, bb, s['rv']['l'], s['rv']['r']):
+                            return False
+    return found
+
+
 def _cond_checked_sub_start(body, bb):
-    """buf[start..] / buf[0..start]: start comes from a checked_sub whose None is an error"""
+    """buf[start..] / buf[0..start]: start comes from a checked_sub whose None is an error, or from a subtraction
+    dominated by the corresponding comparison"""
     t = body.term(bb)
     o = origin(body, t['args'][1])
-    return any(call_matches(c, ['::checked_sub']) for c in o.calls) and 'ok_or' in o.flags and 'try' in o.flags
+    if any(call_matches(c, ['::checked_sub']) for c in o.calls) and 'ok_or' in o.flags and 'try' in o.flags:
+        return True
+    if {x for x in o.flags if x.startswith('arith:')} <= {'arith:SubWithOverflow', 'arith:Sub'} and o.has_arith():
+        return _guarded_subs_only(body, o)
+    return False
 
 
 def _cond_scratch_after_resize(body, bb):
@@ -99,6 +120,10 @@ PANIC_CONDITIONS = {
     ('<de::read::ReaderRead as de::read::ReadSlice>::read_slice', 'index'): _cond_scratch_after_resize,
     ('<de::read::SliceRead as de::read::Read>::read_varint', 'index'): _cond_decode_var_count,
 }
+
+
+PANIC_REVIEWED = {(short_fn(k[0]), k[1]): v for k, v in PANIC_REVIEWED.items()}
+PANIC_CONDITIONS = {(short_fn(k[0]), k[1]): v for k, v in PANIC_CONDITIONS.items()}
 
 
 def in_scope(b):
@@ -134,6 +159,8 @@ def auto_accept(body, kind, bb):
                     lo, ro = origin(body, rv['l']), origin(body, rv['r'])
                     if rv['op'].startswith('Sub') and 'nz_get' in lo.flags and ro.consts() == {1} and len(ro.atoms) == 1:
                         return 'NonZero::get() - 1'
+                    if rv['op'].startswith('Sub') and sub_is_guarded(body, d[0], rv['l'], rv['r']):
+                        return 'subtraction dominated by a comparison establishing minuend >= subtrahend'
                     if rv['op'] in ('Div', 'Rem') or kind in ('assert:div_zero', 'assert:rem_zero'):
                         pass
         if kind in ('assert:div_zero', 'assert:rem_zero'):
@@ -174,13 +201,13 @@ def run(ctx):
             why = auto_accept(b, kind, bb)
             fl = fn_label(b)
             if why is None:
-                key = (fl, kind)
+                key = (short_fn(fl), kind)
                 if key in PANIC_REVIEWED and used.get(key, 0) < PANIC_REVIEWED[key][0]:
                     cond = PANIC_CONDITIONS.get(key)
                     if cond is None or cond(b, bb):
                         used[key] = used.get(key, 0) + 1
                         why = 'reviewed: ' + PANIC_REVIEWED[key][1] + (' [structural condition re-checked]' if cond else '')
-            ordn = used.get((fl, kind), 0)
+            ordn = used.get((short_fn(fl), kind), 0)
             ctx.ob('PANIC', '%s/%s#%d' % (fl, kind, ordn if why and why.startswith('reviewed') else sum(1 for k2, bb2, _, _ in panic_sites(b) if k2 == kind and bb2 < bb)),
                    why is not None, loc_,
                    ('panic-capable construct `%s` (%s): %s' % (kind, txt[:70], why)) if why else
@@ -236,7 +263,16 @@ def depth_rule(ctx):
                         nb = si['variants'].get('None')
                         if nb is not None and all_paths_err(dec, nb):
                             ok = True
-    ctx.ob('DEPTH', 'decrement/checked', ok, short_loc(dec.span), '%s is checked_sub(1) with None => Err: %s' % (fn_label(dec), ok))
+    if not ok:
+        # equivalent form: `if x == 0 { return Err } ; x - 1`
+        for bb in sorted(dec.live_blocks()):
+            for st in dec.stmts(bb):
+                if 'assign' in st and st['rv']['k'] == 'bin' and st['rv']['op'].startswith('Sub') and const_int(st['rv']['r']) == 1:
+                    if sub_is_guarded(dec, bb, st['rv']['l'], st['rv']['r']):
+                        for g in cmp_guards(dec, bb):
+                            if all(all_paths_err(dec, s_) for s_ in g['other']):
+                                ok = True
+    ctx.ob('DEPTH', 'decrement/checked', ok, short_loc(dec.span), '%s decrements by 1 with exhaustion => Err (checked_sub(1) or guarded subtraction): %s' % (fn_label(dec), ok))
     dec_name = dec.id
 
     def budget_operands(b):
@@ -390,13 +426,15 @@ def seqcap_rule(ctx):
     sat = any(call_matches(c, ['::saturating_add']) for c in cnt.calls) or any('saturating_add' in a[1] for a in cnt.atoms if a[0] == 'call')
     # saturating_add(self.n_read, l): look at its operands
     acc = False
+    acc_field = None
     for bb, t in hm.calls():
         if call_matches(t, ['::saturating_add']):
             a0, a1 = origin(hm, t['args'][0]), origin(hm, t['args'][1])
-            if 'n_read' in a0.fields and any('read_block_len' in cname(c) for c in a1.calls) and 'nz_get' in a1.flags:
+            if len(a0.fields) == 1 and a0.params() == {1} and not a0.call_names() and any('read_block_len' in cname(c) for c in a1.calls) and 'nz_get' in a1.flags:
                 acc = True
+                acc_field = list(a0.fields)[0]
     ctx.ob('SEQCAP', 'has_more/cumulative-saturating', sat and acc, short_loc(hm.span),
-           'count compared is saturating_add(n_read, header count): %s/%s' % (sat, acc))
+           'count compared is saturating_add(self.%s, header count): %s/%s' % (acc_field, sat, acc))
     # exceeded edge errs
     t0 = [x['bb'] for x in hm.term(sbb)['targets'] if x['v'] == 0][0]
     exceeded = hm.term(sbb)['otherwise']
@@ -415,11 +453,11 @@ def seqcap_rule(ctx):
     st = False
     for bb in hm.live_blocks():
         for s in hm.stmts(bb):
-            if 'assign' in s and any(isinstance(e, dict) and e.get('f') == 'n_read' for e in s['assign'].get('p', [])):
+            if 'assign' in s and acc_field and any(isinstance(e, dict) and e.get('f') == acc_field for e in s['assign'].get('p', [])):
                 o = origin(hm, s['rv']['op']) if s['rv']['k'] == 'use' else None
                 if o is not None and any(call_matches(c, ['::saturating_add']) for c in o.calls):
                     st = True
-    ctx.ob('SEQCAP', 'has_more/count-accumulates', st, short_loc(hm.span), 'n_read = the saturating sum: %s' % st)
+    ctx.ob('SEQCAP', 'has_more/count-accumulates', st, short_loc(hm.span), 'self.%s = the saturating sum: %s' % (acc_field, st))
 
 
 def alloc_rule(ctx, scope):
@@ -469,8 +507,14 @@ def loop_rule(ctx, scope):
             ok = False
             why = ''
             if prog:
-                # every cycle through the header must pass a progress call: remove progress blocks, no cycle may remain
-                pb = {bb for bb, t in calls if (t.get('callee') or '') in PROGRESS}
+                # every cycle through the header must pass a progress call whose failure leaves the loop (`?`):
+                # remove those blocks, no cycle may remain
+                pb = set()
+                for bb, t in calls:
+                    if (t.get('callee') or '') in PROGRESS:
+                        te = try_edges(b, bb)
+                        if te is not None and te[1] is not None and all_paths_err(b, te[1]):
+                            pb.add(bb)
                 rem = blk - pb
                 cyc = False
                 for s in b.succs(h):
@@ -478,6 +522,8 @@ def loop_rule(ctx, scope):
                         cyc = True
                 if h in pb:
                     cyc = False
+                if not pb:
+                    cyc = True
                 ok = not cyc
                 why = 'every iteration consumes input (%s)' % sorted(set(prog))[0]
                 if cyc:
